@@ -84,7 +84,17 @@ func (fc *FuncCtx) instr(in ssa.Instruction, st *State, reach string) *State {
 				fc.safety("nil-deref", reach, "(not (= "+p.T+" 0))", "load through non-nil pointer")
 				l = eng.derefLoc(p.T, el)
 			}
-			tv := fc.setVal(x, fc.loadLoc(l, st))
+			var tv TV
+			if fa, ok := x.X.(*ssa.FieldAddr); ok {
+				// name the loaded value after the field: readable counterexample models
+				stt := mustDeref(fa.X.Type()).Underlying().(*types.Struct)
+				so := eng.sorts.sortOf(x.Type())
+				n := q.define(fc.name(x)+"__"+sanitize(stt.Field(fa.Field).Name()), so, fc.loadLoc(l, st))
+				tv = TV{T: n, S: so, G: x.Type()}
+				fc.val[x] = tv
+			} else {
+				tv = fc.setVal(x, fc.loadLoc(l, st))
+			}
 			q.assume(fc.wf(tv.T, x.Type()))
 			q.assume(fc.allocd(tv.T, x.Type(), st.get("$wm")))
 			if _, ok := x.Type().Underlying().(*types.Pointer); ok {
